@@ -67,7 +67,14 @@ pub(super) fn insert_reserved_times_as_breaks(
                 let stop_tw =
                     TimeWindow::new(parse_time(&stop.schedule().arrival), parse_time(&stop.schedule().departure));
 
-                if stop_tw.intersects_exclusive(&reserved_tw) {
+                // NOTE: a break moved from the leg to the end of the previous stop can be over before the reserved
+                // time window starts, so the stop does not intersect it
+                let is_break_stop = match &break_info {
+                    Some(BreakInsertion::TransitBreakMoved { leg_idx, .. }) => *leg_idx == stop_idx,
+                    _ => stop_tw.intersects_exclusive(&reserved_tw),
+                };
+
+                if is_break_stop {
                     insert_break(
                         (stop, stop_tw, stop_idx),
                         (break_time, break_cost, break_info.clone()),
